@@ -75,6 +75,7 @@ fn main() {
             "schema-replay" => schemareplay::run(&args[2]).await,
             "sync-client-probe" => syncclient::run(args[2].parse().unwrap(), args[3].parse().unwrap(), &args[4]).await,
             "sentinel-probe" => sentinel::run(&args[2]).await,
+            "ingest-poison" => ingest::run_poison(&args[2], &args[3]).await,
             "backup-probe" => backup::run(&args[2], &args[3]).await,
             "sim-replay" => sim::run_replay(&args[2], &args[3]).await,
             "replay-members" => members::run(&args[2]),
